@@ -24,7 +24,9 @@ from ..common import NCPU, REPO, rmtree, scratch, seed
 
 JUNK = [None, "", 0, -1, 1.5, True, [], {}, "junk", ["junk"], {"junk": 1}, {"$ref": "#/components/schemas/Nope"},
         {"$ref": "https://remote.example/x.json#/a"}, {"$ref": "#"}, {"$ref": "#/components/schemas/"}, "\udcff" if False else "é\u0000",
-        [None], {"type": "object", "properties": None}, {"type": ["string", "nonsense"]}, 10 ** 30]
+        [None], {"type": "object", "properties": None}, {"type": ["string", "nonsense"]}, 10 ** 30,
+        # numbers YAML can write and JSON cannot, numbers too large for float()/int(), a time that rolls over the last year, a reference with a malformed host
+        float("inf"), float("nan"), 10 ** 400, "1e400", "9999-12-31T24:00", {"$ref": "//[x"}, {"type": []}, {"const": "x"}]
 
 
 def crash_site(exc: str) -> str:
@@ -81,6 +83,43 @@ def _parse_job(job):
     return label, exc
 
 
+def _generate_job(job):
+    """parse AND render (into a scratch directory that is removed at once): crashes of the templates count too."""
+    import shutil
+    import tempfile
+    doc, label = job
+    if _HANGS.value >= 4:
+        return label, None
+    out = Path(tempfile.mkdtemp(prefix="c06g-"))
+    try:
+        r = gen.generate(doc, out / "p", limit=30)
+    finally:
+        shutil.rmtree(out, ignore_errors=True)
+    if r["exc"] == "HANG":
+        with _HANGS.get_lock():
+            _HANGS.value += 1
+    return label, r["exc"]
+
+
+def typed_document() -> dict:
+    """Every property kind with a default, in models, parameters of every location and bodies of every kind (incl. multipart with consts)."""
+    S = {"type": "string"}
+    props = {"s": {"type": "string", "default": "x"}, "i": {"type": "integer", "default": 1}, "n": {"type": "number", "default": 1.5}, "b": {"type": "boolean", "default": True},
+             "d": {"type": "string", "format": "date", "default": "2020-01-02"}, "t": {"type": "string", "format": "date-time", "default": "2020-01-02T03:04:05Z"},
+             "u": {"type": "string", "format": "uuid", "default": "12345678-1234-5678-1234-567812345678"}, "e": {"type": "string", "enum": ["a", "b"], "default": "a"},
+             "ei": {"type": "integer", "enum": [1, 2], "default": 1}, "c": {"const": "k", "default": "k"}, "l": {"type": "array", "items": {"type": "integer"}, "default": [1]},
+             "un": {"oneOf": [{"type": "integer"}, {"type": "string", "format": "date"}], "default": 3}, "m": {"allOf": [{"$ref": "#/components/schemas/Leaf"}]},
+             "f": {"type": "string", "format": "binary"}}
+    body = {"type": "object", "required": ["c"], "properties": dict(props)}
+    return gen.mkdoc({"Leaf": {"type": "object", "properties": {"v": S}}, "Typed": {"type": "object", "properties": dict(props), "additionalProperties": {"type": "number", "default": 2}}},
+                     {"/t/{p}": {"post": {"operationId": "typed", "parameters": [{"name": "p", "in": "path", "required": True, "schema": {"type": "integer", "default": 1}},
+                                                                                  {"name": "q", "in": "query", "schema": props["n"]}, {"name": "h", "in": "header", "schema": props["t"]},
+                                                                                  {"name": "c", "in": "cookie", "schema": props["e"]}, {"name": "k", "in": "query", "schema": props["c"]}],
+                                          "requestBody": {"content": {"multipart/form-data": {"schema": body}, "application/json": {"schema": {"$ref": "#/components/schemas/Typed"}},
+                                                                      "application/x-www-form-urlencoded": {"schema": body}}},
+                                          "responses": {"200": {"description": "d", "content": {"application/json": {"schema": {"$ref": "#/components/schemas/Typed"}}}}}}}})
+
+
 def seed_documents() -> dict:
     from ruamel.yaml import YAML
     docs = {}
@@ -102,6 +141,14 @@ def corruption(rep, rnd, quick: bool, d: Path) -> None:
                                     "body": "refchain", "rs": [{"key": "200", "how": "model"}, {"key": "205", "how": "ref"}], "pathvar": False}),
              "pipe": pipe.concretize([{"name": "Alpha", "k": "objarr", "t": "Beta"}, {"name": "Beta", "k": "allof", "t": "Gamma"},
                                       {"name": "Gamma", "k": "objinl", "t": ""}, {"name": "Delta", "k": "wrap", "t": "Alpha"}])}
+    # mutations of the typed document go through the renderer too
+    tdoc = typed_document()
+    gjobs = [(tdoc, "typed:unchanged")]
+    for path in _nodes(tdoc):
+        for junk in JUNK:
+            gjobs.append((_set(tdoc, path, junk), f"typed#/{'/'.join(map(str, path))}={json.dumps(junk, default=str)[:40]}"))
+    if quick and len(gjobs) > 1800:
+        gjobs = [gjobs[0]] + rnd.sample(gjobs[1:], 1800)
     jobs = []
     for name, doc in {**small, **docs}.items():
         nodes = list(_nodes(doc))
@@ -135,6 +182,10 @@ def corruption(rep, rnd, quick: bool, d: Path) -> None:
         jobs = rnd.sample(jobs, 9000)
     with mp.get_context("fork").Pool(NCPU - 2) as pool:
         res = pool.map(_parse_job, jobs, chunksize=50)
+        gres = pool.map(_generate_job, gjobs, chunksize=10)
+    jobs = jobs + gjobs
+    res = res + gres
+    rep.extra["corrupted_documents_rendered"] = len(gjobs)
     sites: dict = {}
     for (doc, _), (label, exc) in zip(jobs, res):
         rep.count(1, label)
